@@ -5,6 +5,7 @@ import LentilVerif.Lemmas.PropLinear
 import LentilVerif.Lemmas.ChainExtents
 import LentilVerif.Lemmas.Window
 import LentilVerif.Lemmas.PlaneComplex
+import LentilVerif.Props.C09
 import LentilVerif.Props.C07
 /-! # C03 — splitting an aperture into segments never changes the result
 
@@ -414,6 +415,94 @@ theorem splitPlane_wf_of_masks (sp : SplitPlane K R)
 
 end constructed
 
+/-! ## Tilt planes anywhere in the chain -/
+section interleaved
+variable {K R : Type} [MulZeroOneClass K]
+
+/-- **Tilt planes interleaved with masked planes change nothing but the tilt lists**: for array fields that all carry the
+list `t`, a chain of masked planes (`ok`, `ExtOK`) and Tilt planes in any order produces exactly the fields of the chain
+with the Tilt planes removed, and every one of them carries `t ++` (the Tilt planes in order) — each exactly once, however
+many segments the planes have -/
+theorem interleaved_data (ph : R → K) (o : R) (hph : ph o = 1) (els : List (ChainEl K R)) (hps : ∀ p ∈ chainPlanes els, p.ok)
+    (t : List (TiltEl R)) (d : List (TFld K R)) (hd : ∀ ft ∈ d, ft.1.size1 = false ∧ ft.1.extent.valid)
+    (ht : ∀ ft ∈ d, ft.2 = t) (hE : ExtOK ((chainPlanes els).map PlaneM.boxes) ((d.map Prod.fst).map Fld.extent)) :
+    (runChainT ph 1 o els d).map Prod.fst = chainMultiply ph (chainPlanes els) (d.map Prod.fst) ∧
+    ∀ gt ∈ runChainT ph 1 o els d, gt.2 = t ++ chainTilts els := by
+  induction els generalizing d t with
+  | nil => exact ⟨rfl, by intro gt hgt; rw [ht gt hgt]; simp [chainTilts]⟩
+  | cons el els ih =>
+    cases el with
+    | pl p =>
+      have hp : p.ok := hps p (by simp [chainPlanes])
+      have hdata := planeMultiplyT_data ph p [] d
+      have hd' : ∀ f ∈ d.map Prod.fst, f.size1 = false ∧ f.extent.valid := by
+        intro f hf; obtain ⟨ft, hft, rfl⟩ := List.mem_map.mp hf; exact hd ft hft
+      obtain ⟨hout, hE2⟩ := step_ext_ok ph p hp (d.map Prod.fst) hd' _ hE
+      have hd2 : ∀ ft ∈ planeMultiplyT ph p [] d, ft.1.size1 = false ∧ ft.1.extent.valid := by
+        intro ft hft
+        apply hout
+        rw [← hdata]; exact List.mem_map_of_mem hft
+      obtain ⟨h1, h2⟩ := ih (fun q hq => hps q (by simp [chainPlanes, hq])) t _ hd2
+        (common_tilts_plane ph p t d ht) (by rw [hdata]; exact hE2)
+      refine ⟨?_, h2⟩
+      show (runChainT ph 1 o els (planeMultiplyT ph p [] d)).map Prod.fst = chainMultiply ph (chainPlanes els) (planeMultiply ph p (d.map Prod.fst))
+      rw [h1, hdata]
+    | tl e =>
+      obtain ⟨hl, hdat⟩ := common_tilts_tilt ph 1 o e t d ht
+      have hd' : ∀ f ∈ d.map Prod.fst, f.size1 = false ∧ f.extent.valid := by
+        intro f hf; obtain ⟨ft, hft, rfl⟩ := List.mem_map.mp hf; exact hd ft hft
+      have hid : (tiltMultiplyT ph 1 o e d).map Prod.fst = d.map Prod.fst := by
+        rw [hdat, planeMultiply_default_id ph o hph _ hd']
+      have hd2 : ∀ ft ∈ tiltMultiplyT ph 1 o e d, ft.1.size1 = false ∧ ft.1.extent.valid := by
+        intro ft hft
+        apply hd'
+        rw [← hid]; exact List.mem_map_of_mem hft
+      obtain ⟨h1, h2⟩ := ih (fun q hq => hps q (by simpa [chainPlanes] using hq)) (t ++ [e]) _ hd2 hl
+        (by rw [hid]; exact hE)
+      refine ⟨?_, ?_⟩
+      · show (runChainT ph 1 o els (tiltMultiplyT ph 1 o e d)).map Prod.fst = chainMultiply ph (chainPlanes els) (d.map Prod.fst)
+        rw [h1, hid]
+      · intro gt hgt
+        rw [h2 gt hgt]
+        simp [chainTilts]
+
+end interleaved
+
+
+/-! ## Chains with the explicit exponential -/
+section chainexp
+attribute [local instance] PlaneC.realLikeReal PlaneC.cxLikeComplex
+
+/-- **a chain of planes multiplies the field by the product of `amplitude · exp(+2πi·OPD/λ)` over the planes** (`K = ℂ`):
+after any chain of array-mask planes (`ok`: covering slices, no one-pixel box; `ChainOK`) the total field at every pixel is
+the total incoming field times, plane after plane, the sum over that plane's segments of `amplitude · exp(2πi·opd/λ)` on the
+segment's mask and `0` off it — `chain_distrib` with the phase factor the code uses, made explicit by `C07.planePh_eq_exp` -/
+theorem chain_exp (wavelength : ℝ) (ps : List (PlaneM ℂ ℝ)) (hps : ∀ p ∈ ps, p.ok) (data : List (Fld ℂ))
+    (hok : ChainOK (planePh wavelength) ps data) (r c : Int) :
+    sumList (chainMultiply (planePh wavelength) ps data) (fun g => g.sem r c)
+      = ps.foldl (fun acc p => acc * PlaneC.planeExpT wavelength p r c) (sumList data (fun f => f.sem r c)) := by
+  rw [chain_distrib (planePh wavelength) ps data hok r c]
+  clear hok
+  generalize sumList data (fun f => f.sem r c) = a
+  have hph : (planePh wavelength : ℝ → ℂ) = fun o : ℝ => Complex.exp (2 * Real.pi * Complex.I * ((o : ℂ) / (wavelength : ℂ))) := by
+    funext o; exact C07.planePh_eq_exp wavelength o
+  induction ps generalizing a with
+  | nil => rfl
+  | cons p ps ih =>
+    simp only [List.foldl_cons]
+    have hp := hps p (List.mem_cons_self ..)
+    have e : planeT (planePh wavelength) p r c = PlaneC.planeExpT wavelength p r c := by
+      obtain ⟨amp, opd, mask⟩ := p
+      cases mask with
+      | scalar on => exact absurd hp (by simp [PlaneM.ok])
+      | segs S0 S1 l =>
+        rw [planeT_segs (planePh wavelength) amp opd S0 S1 l hp r c, hph]
+        rfl
+    rw [e]
+    exact ih (fun x hx => hps x (List.mem_cons_of_mem _ hx)) _
+
+end chainexp
+
 /-! ## End to end -/
 section endtoend
 variable {K R : Type} [Add R] [Sub R] [Mul R] [Neg R] [RealLike R] [NonAssocSemiring K] [CxLike K R]
@@ -591,5 +680,136 @@ example : (∀ x ∈ [Witness.sp, Witness.sp], x.WF) ∧
    Witness.sp_ext.1, Witness.sp_ext.2⟩
 
 end endtoend
+
+section fft
+
+/-- **segmented = monolithic through `propagate_fft`** (`K = ℂ`), composing C09 `fft_eq_propagate_dft` (the FFT path returns the
+field of `propagate_dft` at the wavelength it reports) with `propagate_common_linear`: when `propagate_fft` answers for both
+descriptions (same grid, output shape and reported wavelength — these depend on the sampling only), every sample of the two
+`Wavefront.field`s agrees, for a fresh wavefront through any non-empty chain of partitioned planes (`WF`, `ExtOK`) -/
+theorem segmented_eq_monolithic_propagate_fft (ph : ℝ → ℂ) (w0 : Fld ℂ) (h0 : w0.size1 = true)
+    (s : SplitPlane ℂ ℝ) (ss : List (SplitPlane ℂ ℝ)) (hwf : ∀ x ∈ s :: ss, x.WF)
+    (hEseg : ExtOK (ss.map fun x => x.seg.boxes) s.seg.boxes) (hEmono : ExtOK (ss.map fun x => x.mono.boxes) s.mono.boxes)
+    (W0 W1 : Int) (dx0 dx1 du0 du1 wl z : ℝ) (os : Int) (shape : Option (Int × Int)) (scrA scrB : Option (Arr ℂ))
+    (lam : ℝ) (S0 S1 : Int) (so : Int × Int) (gA gB : Fld ℂ)
+    (hfA : propagateFft 1 (chainMultiply ph ((s :: ss).map SplitPlane.seg) [w0]) false W0 W1 dx0 dx1 du0 du1 wl z os shape scrA
+      = FftOut.ok lam S0 S1 so gA)
+    (hfB : propagateFft 1 (chainMultiply ph ((s :: ss).map SplitPlane.mono) [w0]) false W0 W1 dx0 dx1 du0 du1 wl z os shape scrB
+      = FftOut.ok lam S0 S1 so gB)
+    (hcons : dx0 * du0 = dx1 * du1 ∨ (S0 : ℝ) * (dx0 * du0) = (S1 : ℝ) * (dx1 * du1))
+    (hp : dx0 * du0 ≠ 0) (hp1 : dx1 * du1 ≠ 0) (hz : z ≠ 0) (hos : 0 < os) (hS : 0 < S0 ∧ 0 < S1)
+    (hW : 0 ≤ W0 ∧ W0 ≤ S0 ∧ 0 ≤ W1 ∧ W1 ≤ S1)
+    (hfitA : ∀ f ∈ chainMultiply ph ((s :: ss).map SplitPlane.seg) [w0], f.within W0 W1)
+    (hfitB : ∀ f ∈ chainMultiply ph ((s :: ss).map SplitPlane.mono) [w0], f.within W0 W1)
+    (hso : 0 < so.1 ∧ 0 < so.2) (i j : Int) (hi : 0 ≤ i ∧ i < so.1) (hj : 0 ≤ j ∧ j < so.2) :
+    (wavefrontField 1 [gA] so.1 so.2).get i j = (wavefrontField 1 [gB] so.1 so.2).get i j := by
+  obtain ⟨hemb, hposS, hposM⟩ := chain_total_emb_eq ph w0 h0 s ss hwf hEseg hEmono
+  rw [C09.fft_eq_propagate_dft _ W0 W1 dx0 dx1 du0 du1 wl z os shape scrA lam S0 S1 so gA hfA hcons hp hp1 hz hos hS hW hfitA hposS hso i j hi hj,
+      C09.fft_eq_propagate_dft _ W0 W1 dx0 dx1 du0 du1 wl z os shape scrB lam S0 S1 so gB hfB hcons hp hp1 hz hos hS hW hfitB hposM hso i j hi hj]
+  have key := fun r c => propagate_common_linear _ _ hposS hposM hemb
+    (dftAlpha dx0 dx1 du0 du1 lam z os).1 (dftAlpha dx0 dx1 du0 du1 lam z os).2 so.1 so.2 so.1 so.2 1 none 0 0 (0 : ℝ) (0 : ℝ) r c
+  show (wfField 1 so.1 so.2 (propagateDftCommon _ _ _ so.1 so.2 so.1 so.2 1 none 0 0 (0 : ℝ) (0 : ℝ))).get i j
+     = (wfField 1 so.1 so.2 (propagateDftCommon _ _ _ so.1 so.2 so.1 so.2 1 none 0 0 (0 : ℝ) (0 : ℝ))).get i j
+  rw [C07.field_eq_sum _ _ _ i j hi hj, C07.field_eq_sum _ _ _ i j hi hj, key]
+
+end fft
+
+section interleaved_e2e
+variable {K R : Type} [Add R] [Sub R] [Mul R] [Neg R] [RealLike R] [NonAssocSemiring K] [CxLike K R]
+
+/-- the chain elements of one description: every `SplitPlane` as its segmented or its monolithic plane, Tilt planes as they are -/
+def descr (seg : Bool) : List (SplitPlane K R ⊕ TiltEl R) → List (ChainEl K R)
+  | [] => []
+  | .inl s :: r => .pl (if seg then s.seg else s.mono) :: descr seg r
+  | .inr e :: r => .tl e :: descr seg r
+
+/-- the `SplitPlane`s of a chain -/
+def splits : List (SplitPlane K R ⊕ TiltEl R) → List (SplitPlane K R)
+  | [] => []
+  | .inl s :: r => s :: splits r
+  | .inr _ :: r => splits r
+
+theorem chainPlanes_descr (seg : Bool) (els : List (SplitPlane K R ⊕ TiltEl R)) :
+    chainPlanes (descr seg els) = (splits els).map (fun s => if seg then s.seg else s.mono) := by
+  induction els with
+  | nil => rfl
+  | cons el els ih => cases el <;> simp [descr, splits, chainPlanes, ih]
+
+theorem chainTilts_descr (seg : Bool) (els : List (SplitPlane K R ⊕ TiltEl R)) :
+    chainTilts (descr seg els) = chainTilts (descr true els) := by
+  induction els with
+  | nil => rfl
+  | cons el els ih => cases el <;> simp [descr, chainTilts, ih]
+
+/-- **segmented = monolithic with Tilt planes anywhere in the chain, as one theorem.** A fresh wavefront carrying the tilt list
+`t0` (`Wavefront(tilt=…)`, leading Tilt planes) passes a masked plane and then masked planes and Tilt planes in any order; every
+masked plane is given segmented and monolithic (`WF`, `ExtOK` on the input). Then in BOTH descriptions every field carries
+exactly `t0 ++` the Tilt planes in order — once each, whatever the number of segments — so all fields have one common shift,
+and for that (any) shift `fix + sub`, any output mask, shapes and sampling, `propagate_dft` (builderB's model, generated
+window) gives the same `Wavefront.field` and the same intensity at every sample. -/
+theorem segmented_eq_monolithic_interleaved (ph : R → K) (o : R) (hph : ph o = 1) (w0 : Fld K) (h0 : w0.size1 = true)
+    (t0 : List (TiltEl R)) (s : SplitPlane K R) (els : List (SplitPlane K R ⊕ TiltEl R))
+    (hwf : ∀ x ∈ s :: splits els, x.WF)
+    (hEseg : ExtOK ((splits els).map fun x => x.seg.boxes) s.seg.boxes)
+    (hEmono : ExtOK ((splits els).map fun x => x.mono.boxes) s.mono.boxes)
+    (αr αc : R) (S0 S1 P0 P1 os : Int) (mask : Option Extent) (fix0 fix1 : Int) (sub0 sub1 : R)
+    (hoe : (outExtent (S0 * os) (S1 * os) mask).rmin ≤ (outExtent (S0 * os) (S1 * os) mask).rmax ∧
+           (outExtent (S0 * os) (S1 * os) mask).cmin ≤ (outExtent (S0 * os) (S1 * os) mask).cmax)
+    (hP : 0 < P0 * os ∧ 0 < P1 * os) (nsq : K → K) (hn : nsq 0 = 0) (i j : Int)
+    (hi : 0 ≤ i ∧ i < S0 * os) (hj : 0 ≤ j ∧ j < S1 * os) :
+    let DA := runChainT ph 1 o (descr true (.inl s :: els)) [(w0, t0)]
+    let DB := runChainT ph 1 o (descr false (.inl s :: els)) [(w0, t0)]
+    let A := propagateDftCommon (DA.map Prod.fst) αr αc S0 S1 P0 P1 os mask fix0 fix1 sub0 sub1
+    let B := propagateDftCommon (DB.map Prod.fst) αr αc S0 S1 P0 P1 os mask fix0 fix1 sub0 sub1
+    (∀ gt ∈ DA, gt.2 = t0 ++ chainTilts (descr true els)) ∧ (∀ gt ∈ DB, gt.2 = t0 ++ chainTilts (descr true els)) ∧
+    (wfField 1 (S0 * os) (S1 * os) A).get i j = (wfField 1 (S0 * os) (S1 * os) B).get i j ∧
+    ∃ IA IB, wfIntensity 1 nsq (S0 * os) (S1 * os) A = some IA ∧ wfIntensity 1 nsq (S0 * os) (S1 * os) B = some IB ∧
+      IA.get i j = IB.get i j := by
+  intro DA DB A B
+  -- both descriptions: the data are those of the chain without the Tilt planes
+  have side : ∀ (seg : Bool) (hE : ExtOK ((splits els).map fun x => (if seg then x.seg else x.mono).boxes) (if seg then s.seg else s.mono).boxes),
+      (runChainT ph 1 o (descr seg (.inl s :: els)) [(w0, t0)]).map Prod.fst
+        = chainMultiply ph ((s :: splits els).map fun x => if seg then x.seg else x.mono) [w0] ∧
+      ∀ gt ∈ runChainT ph 1 o (descr seg (.inl s :: els)) [(w0, t0)], gt.2 = t0 ++ chainTilts (descr true els) := by
+    intro seg hE
+    have hpok : ∀ x ∈ s :: splits els, (if seg then x.seg else x.mono).ok := by
+      intro x hx; cases seg
+      · exact (hwf x hx).2.1
+      · exact (hwf x hx).1
+    obtain ⟨hout, hext⟩ := fresh_step_ok ph w0 h0 _ (hpok s (List.mem_cons_self ..))
+    have hdata : (planeMultiplyT ph (if seg then s.seg else s.mono) [] [(w0, t0)]).map Prod.fst
+        = planeMultiply ph (if seg then s.seg else s.mono) [w0] := planeMultiplyT_data ph (if seg then s.seg else s.mono) [] [(w0, t0)]
+    have hd2 : ∀ ft ∈ planeMultiplyT ph (if seg then s.seg else s.mono) [] [(w0, t0)], ft.1.size1 = false ∧ ft.1.extent.valid := by
+      intro ft hft; apply hout; rw [← hdata]; exact List.mem_map_of_mem hft
+    have hps : ∀ p ∈ chainPlanes (descr seg els), p.ok := by
+      rw [chainPlanes_descr]; intro p hp
+      obtain ⟨x, hx, rfl⟩ := List.mem_map.mp hp
+      exact hpok x (List.mem_cons_of_mem _ hx)
+    obtain ⟨h1, h2⟩ := interleaved_data ph o hph (descr seg els) hps t0 _ hd2
+      (common_tilts_plane ph _ t0 [(w0, t0)] (by intro ft hft; simp only [List.mem_cons, List.not_mem_nil, or_false] at hft; rw [hft]))
+      (by rw [hdata, chainPlanes_descr, List.map_map, hext]; exact hE)
+    refine ⟨?_, ?_⟩
+    · show (runChainT ph 1 o (descr seg els) (planeMultiplyT ph (if seg then s.seg else s.mono) [] [(w0, t0)])).map Prod.fst = _
+      rw [h1, hdata, chainPlanes_descr]; rfl
+    · intro gt hgt
+      rw [h2 gt hgt, chainTilts_descr]
+  obtain ⟨hA, htA⟩ := side true (by simpa using hEseg)
+  obtain ⟨hB, htB⟩ := side false (by simpa using hEmono)
+  have key := segmented_eq_monolithic_propagateDft ph w0 h0 s (splits els) hwf hEseg hEmono αr αc S0 S1 P0 P1 os mask
+    fix0 fix1 sub0 sub1 hoe hP nsq hn i j hi hj
+  simp only [] at key
+  have eA : DA.map Prod.fst = chainMultiply ph ((s :: splits els).map SplitPlane.seg) [w0] := by rw [hA]; simp
+  have eB : DB.map Prod.fst = chainMultiply ph ((s :: splits els).map SplitPlane.mono) [w0] := by rw [hB]; simp
+  refine ⟨htA, htB, ?_⟩
+  have hAA : A = propagateDftCommon (chainMultiply ph ((s :: splits els).map SplitPlane.seg) [w0]) αr αc S0 S1 P0 P1 os mask fix0 fix1 sub0 sub1 := by
+    show propagateDftCommon (DA.map Prod.fst) αr αc S0 S1 P0 P1 os mask fix0 fix1 sub0 sub1 = _
+    rw [eA]
+  have hBB : B = propagateDftCommon (chainMultiply ph ((s :: splits els).map SplitPlane.mono) [w0]) αr αc S0 S1 P0 P1 os mask fix0 fix1 sub0 sub1 := by
+    show propagateDftCommon (DB.map Prod.fst) αr αc S0 S1 P0 P1 os mask fix0 fix1 sub0 sub1 = _
+    rw [eB]
+  rw [hAA, hBB]
+  exact key
+
+end interleaved_e2e
 
 end Lentil.C03
